@@ -16,6 +16,8 @@ structure St where
   evA : Option Vote := none
   evB : Option Vote := none
   mst : Option (List (List UInt8 × MSig)) := none
+  fs : List FsH := []
+  fsCommit : Option Commit := none
 
 def showBid (b : BlockID) : String := s!"{hexEncode b.hash}/{b.total}/{hexEncode b.phash}"
 
@@ -245,6 +247,42 @@ def step (st : St) (toks : List String) : St × String :=
       | some (some s) =>
         let maj := match twoThirdsMajority s with | some b => showBid b | none => "none"
         (st, s!"ok maj23={maj} h={s.height} r={s.round} sum={s.sum} votes={showSlots s.votes}")
+    | _, _ => (st, "bad-op")
+  | "fsvals" :: _ =>
+    match parseVals? toks, argHex? toks "chain" with
+    | some vals, some chain => ({ st with chain := chain, vals := vals, hasVals := true }, "ok")
+    | _, _ => (st, "bad-op")
+  | "fscommit" :: _ =>
+    if arg? toks "bid" == some "none" then ({ st with fsCommit := none }, "ok") else
+    match argBid? toks "bid" with
+    | some b => ({ st with fsCommit := some { bid := b, precommits := [] } }, "ok")
+    | none => (st, "bad-op")
+  | "fsslot" :: rest =>
+    match st.fsCommit with
+    | none => (st, "bad-op")
+    | some c =>
+      if rest == ["nil"] then ({ st with fsCommit := some { c with precommits := c.precommits ++ [none] } }, "ok")
+      else match parseVote? st.chain toks with
+        | some v => ({ st with fsCommit := some { c with precommits := c.precommits ++ [some v] } }, "ok")
+        | none => (st, "bad-op")
+  | "fsheight" :: _ =>
+    match argBid? toks "bid", arg? toks "served" with
+    | some b, some sv =>
+      ({ st with fs := st.fs ++ [{ vals := st.vals, bid := b, avail := sv == "true", commit := st.fsCommit }], fsCommit := none }, "ok")
+    | _, _ => (st, "bad-op")
+  | "fsrun" :: _ =>
+    if st.fs.isEmpty then (st, "no-description") else
+    match argNat? toks "announce", arg? toks "relay" with
+    | some a, some relay =>
+      let n := st.fs.length
+      let over : Option Nat := if relay.startsWith "oversize:" then (relay.drop 9).toString.toNat? else none
+      let inRange := st.fs.take a
+      let hs := (inRange.zip (List.range inRange.length)).map (fun (x, i) => if over == some (i + 1) then { x with avail := false } else x)
+      let (applied, stop) := fsLoop symVerify st.chain (decide (a ≤ n)) 1 hs
+      let overHit := match over with | some k => decide (1 ≤ k ∧ k ≤ min a n) | none => false
+      let dropped := stop == FsStop.badCommit || overHit
+      if stop == FsStop.halt then ({ st with fs := [] }, "panic")
+      else ({ st with fs := [] }, s!"applied={applied} altered=- dropped={if dropped then "p0" else "-"} switched={stop == FsStop.caughtUp && !dropped}")
     | _, _ => (st, "bad-op")
   | "signbytes" :: _ =>
     match argHex? toks "chain", parseVote? st.chain toks with
